@@ -49,7 +49,7 @@ impl Property for C19 {
     }
 
     fn rule(&self) -> &'static str {
-        "case = (table definition, statement [select / aggregate / join / follow-mode select], main input in 1..2 files, optional joined file of up to 35 lines). For every case the interrupt (running.store(false)) is placed before EVERY seam event of the uninterrupted run, one past its end, and inside EVERY println (exhaustive per scenario; scenarios sampled). Line-granular serving gives each input line its own read event, so 'store before the i-th load' for all i is the complete set of distinguishable interleavings of the single-writer flag. Non-trivial iff the interrupt fired strictly after the first and before the last event of the run; distinct by (case hash, interrupt position)."
+        "case = (table definition, statement [select / aggregate / join / follow-mode select], main input in 1..2 files, optional joined file of up to 35 lines, for a fifth of them with an undecodable line placed at or near an index where the loader looks at the flag). For every case the interrupt (running.store(false)) is placed before EVERY seam event of the uninterrupted run, one past its end, and inside EVERY println (exhaustive per scenario; scenarios sampled). Line-granular serving gives each input line its own read event, so 'store before the i-th load' for all i is the complete set of distinguishable interleavings of the single-writer flag. Non-trivial iff the interrupt fired strictly after the first and before the last event of the run; distinct by (case hash, interrupt position)."
     }
 
     fn assumptions(&self) -> Vec<String> {
@@ -156,6 +156,8 @@ impl Property for C19 {
             "observable": observable && !join && (kind != "aggregate" || query.group_by.is_empty()),
             "files": enc_list(&files),
             "joined": if join { J::String(enc(&gen::join_lines(&joined, true))) } else { J::Null },
+            // an undecodable line in the joined file, often at an index where the loader looks at the flag
+            "joined_bad_at": if join && !joined.is_empty() && rng.chance(1, 5) { json!((*rng.pick(&[10usize, 10, 20, 30, 11, 9, 0, 5, 19, 21])).min(joined.len())) } else { J::Null },
             "format": rng.pick(&["text", "text", "json", "csv"]),
             "single": rng.chance(1, 3),
             // an undecodable line at this position of the main input: an interrupt that arrives before it is
@@ -173,6 +175,8 @@ impl Property for C19 {
         let mut out = Vec::new();
         bytes_array_field(case, "files", &mut out);
         bytes_field(case, "joined", &mut out);
+        num_field(case, "joined_bad_at", 0, &mut out);
+        set_field(case, "joined_bad_at", J::Null, &mut out);
         set_field(case, "format", json!("text"), &mut out);
         out
     }
@@ -193,6 +197,18 @@ impl Property for C19 {
         }
         let follow = kind == "follow";
         let aggregate = kind.contains("aggregate") || (follow && stmt.to_uppercase().contains("(") && (stmt.to_uppercase().contains(" GROUP BY ") || stmt.contains("COUNT(") || stmt.contains("SUM(") || stmt.contains("MAX(") || stmt.contains("MIN(") || stmt.contains("AVG(") || stmt.contains("PERCENTILE(") || stmt.contains("STDDEV(") || stmt.contains("VARIANCE(") || stmt.contains("_AGG(") || stmt.contains("BOOL_")));
+        // the joined file as the loader sees it (with the undecodable line, if any)
+        let joined_bad_at: Option<usize> = if joined.is_some() { case.get("joined_bad_at").and_then(|x| x.as_u64()).map(|x| x as usize) } else { None };
+        let joined: Option<Vec<u8>> = match (joined, joined_bad_at) {
+            (Some(j), Some(b)) => {
+                let mut ls = complete_lines(&j);
+                let at = b.min(ls.len());
+                ls.insert(at, vec![0xFF, b'x']);
+                Some(gen::join_lines(&ls, true))
+            }
+            (j, _) => j,
+        };
+        let joined_bad_at = joined_bad_at.map(|b| b.min(joined.as_ref().map(|j| complete_lines(j).len().saturating_sub(1)).unwrap_or(0)));
         let unreadable_last = !follow && jbool(case, "unreadable_last");
         let bad_at: Option<usize> = if follow { None } else { case.get("bad_at").and_then(|x| x.as_u64()).map(|x| x as usize) };
         // the files as the query sees them (with the undecodable line, if any)
@@ -264,8 +280,9 @@ impl Property for C19 {
         if !usable(&mut out, "c19", &base, &features) {
             return out;
         }
-        let base_fails_on_bad_line = (bad_at.is_some() || unreadable_last) && matches!(&base.status, Status::Err(msg) if msg.contains("read file"));
+        let base_fails_on_bad_line = (bad_at.is_some() || unreadable_last || joined_bad_at.is_some()) && matches!(&base.status, Status::Err(msg) if msg.contains("read file"));
         out.probe("unreadable_later_input_file", unreadable_last as u64);
+        out.probe("undecodable_line_in_joined_file", joined_bad_at.is_some() as u64);
         if base.status != Status::Ok && !base_fails_on_bad_line {
             // a statement that fails on this data is not a scenario for this property
             out.invalid = Some(format!("uninterrupted run: {}", status_label(&base.status)));
@@ -335,6 +352,22 @@ impl Property for C19 {
                 if status_label(&res.status) != status_label(&base.status) {
                     fail(&mut out, "c19.not_a_prefix", format!("interrupt never reached but the run reports {} instead of {}", status_label(&res.status), status_label(&base.status)));
                 }
+            } else if joined_bad_at.is_some()
+                && matches!(res.status, Status::Err(_))
+                && res.interrupted_at.map(|e| lines_served_before(&res, &joined_contents, e) + 10 <= joined_bad_at.unwrap_or(0)).unwrap_or(false)
+            {
+                // the undecodable joined line lies more than ten lines behind the interrupt: reporting it means it was consumed
+                let e = res.interrupted_at.unwrap_or(0);
+                fail(
+                    &mut out,
+                    "c19.error_reported",
+                    format!(
+                        "interrupted after {} lines of the joined file, yet the error of its line #{} is reported ({}): more than ten further lines were consumed, or a line read ahead was looked at",
+                        lines_served_before(&res, &joined_contents, e),
+                        joined_bad_at.unwrap_or(0),
+                        status_label(&res.status)
+                    ),
+                );
             } else if res.status != Status::Ok {
                 // a failure is the interruption's doing unless a plain run over the consumed lines fails the same way
                 let served = res.interrupted_at.map(|e| lines_served_before(&res, &main_contents, e)).unwrap_or(all_lines.len());
@@ -408,6 +441,9 @@ impl Property for C19 {
                         fail(&mut out, "c19.consumed_after_interrupt", format!("interrupt inside the println of a record of line {}: {} lines consumed", served_before, c));
                     } else if joined.is_some() && lines_served_from(&res, &joined_contents, e) > 11 {
                         fail(&mut out, "c19.not_prompt", format!("{} further lines of the joined file were read after the interrupt (at most 10 + 1 allowed)", lines_served_from(&res, &joined_contents, e)));
+                    } else if joined_bad_at.is_some() {
+                        // no uninterrupted run over this joined file succeeds, so there is no table to compare with:
+                        // such a case is judged on promptness, consumption and the error rule above only
                     } else {
                         match get_reference(&mut out, c) {
                             None => {
